@@ -10,14 +10,16 @@ Fixpoint none_sound (E : env) (d : desc) : bool :=
   match d with
   | DInstance cls false _ => negb (issub E cNONE cls)
   | DSelf false => negb (issub E cNONE (e_self E))
-  | DTuple ds | DCompound ds | DUnion ds => forallb (none_sound E) ds
+  | DTuple ds | DCompound ds | DUnion ds | DVTuple ds _ => forallb (none_sound E) ds
+  | DProperty d' | DList d' _ _ => none_sound E d'
   | _ => true
   end.
 (* adaptation results are whatever the adapter returns: outside the declared-domain statement *)
 Fixpoint no_adapt (d : desc) : bool :=
   match d with
   | DAdapt _ _ _ _ => false
-  | DTuple ds | DCompound ds | DUnion ds => forallb no_adapt ds
+  | DTuple ds | DCompound ds | DUnion ds | DVTuple ds _ => forallb no_adapt ds
+  | DProperty d' | DList d' _ _ => no_adapt d'
   | _ => true
   end.
 Definition sound_hyp (E : env) (d : desc) : bool :=
@@ -140,9 +142,9 @@ Qed.
 
 Lemma leaf_sound E d :
   bool_final E = true ->
-  (forall ds, d <> DTuple ds /\ d <> DCompound ds /\ d <> DUnion ds) -> sound_at E d.
+  (forall ds, d <> DTuple ds /\ d <> DCompound ds /\ d <> DUnion ds) -> (forall d', d <> DProperty d' /\ (forall ds fv, d <> DVTuple ds fv) /\ forall mn mx, d <> DList d' mn mx) -> sound_at E d.
 Proof.
-  intros HB Hleaf Hwf Hn Ha v w.
+  intros HB Hleaf Hnp Hwf Hn Ha v w.
   destruct d; cbn [c_validate]; cbn in Hn, Ha; try discriminate.
   - (* DAny *) reflexivity.
   - (* DInt *) unfold of_conv. destruct (as_integer v) as [x|[]] eqn:H; try discriminate.
@@ -214,6 +216,9 @@ Proof.
     match goal with |- match ?x with _ => _ end = _ -> _ => destruct x as [a1|] end; [|discriminate].
     destruct (arr_dtype_ok dt a1) eqn:H1; [|discriminate]. destruct (arr_shape_ok shape a1) eqn:H2; [|discriminate].
     intros Hx; inversion Hx; subst. destruct w; try discriminate. cbn in *. now rewrite H1, H2.
+  - (* DProperty *) exfalso. now apply (proj1 (Hnp d)).
+  - (* DVTuple *) exfalso. now apply (proj1 (proj2 (Hnp DAny)) ds fv).
+  - (* DList *) exfalso. now apply (proj2 (proj2 (Hnp d)) minlen maxlen).
 Qed.
 
 Lemma tuple_sound E ds : Forall (sound_at E) ds -> sound_at E (DTuple ds).
@@ -263,17 +268,233 @@ Proof.
   cbn [dom]. eapply alts_sound; eauto. apply in_or_app. right. left. reflexivity.
 Qed.
 
+(* ---- the Python-level validate is sound as well (needed for Property(<trait>), validated with handler.validate) ---- *)
+Definition psound_at (E : env) (d : desc) : Prop :=
+  wf_desc d = true -> none_sound E d = true -> no_adapt d = true ->
+  forall v w, py_validate E d v = Accept w -> dom E d w = true.
+
+Lemma first_sel_accept_in sel f ds w :
+  first_sel sel f ds = Accept w -> exists a, In a ds /\ f a = Accept w.
+Proof.
+  induction ds as [|a ds IH]; cbn; [discriminate|]. destruct (sel a).
+  - destruct (f a) as [x| |e] eqn:Hf.
+    + intros H; inversion H; subst. exists a. split; [now left | assumption].
+    + intros H. destruct (IH H) as (b & Hb & Hfb). exists b. split; [now right | assumption].
+    + discriminate.
+  - intros H. destruct (IH H) as (b & Hb & Hfb). exists b. split; [now right | assumption].
+Qed.
+
+Lemma py_leaf_sound E d :
+  bool_final E = true ->
+  (forall ds, d <> DTuple ds /\ d <> DCompound ds /\ d <> DUnion ds) -> (forall d', d <> DProperty d' /\ (forall ds fv, d <> DVTuple ds fv) /\ forall mn mx, d <> DList d' mn mx) -> psound_at E d.
+Proof.
+  intros HB Hleaf Hnp Hwf Hn Ha v w.
+  destruct d; cbn [py_validate]; cbn in Hn, Ha; try discriminate.
+  - reflexivity.
+  - destruct (as_integer v) as [x|[]] eqn:H; try discriminate.
+    intros Hx; inversion Hx; subst. destruct (as_integer_int _ _ H) as [z ->]. reflexivity.
+  - destruct (as_float v) as [x|[]] eqn:H; try discriminate.
+    intros Hx; inversion Hx; subst. destruct (as_float_float _ _ H) as [f ->]. reflexivity.
+  - destruct (as_complex v) as [x|[]] eqn:H; try discriminate.
+    intros Hx; inversion Hx; subst. destruct (as_complex_complex _ _ H) as (r & i & ->). reflexivity.
+  - destruct (isinstance E v cSTR) eqn:H; [|discriminate]. intros Hx; inversion Hx; subst. exact H.
+  - destruct (isinstance E v cBYTES) eqn:H; [|discriminate]. intros Hx; inversion Hx; subst. exact H.
+  - destruct (isinstance E v cBOOL || isinstance E v cNPBOOL); [|discriminate]. intros Hx; inversion Hx; reflexivity.
+  - (* DCast *) destruct (cast_fn E t v) as [x|e] eqn:Hf.
+    + intros Hx; inversion Hx; subst. cbn. apply Z.eqb_eq. eapply cast_fn_class; eauto.
+    + destruct t, e; discriminate.
+  - (* DRangeF *) destruct (as_float v) as [[]|[]]; try discriminate.
+    destruct (py_float_in_range f lo hi mask) eqn:Hr; [|discriminate].
+    intros Hx; inversion Hx; subst. cbn. now rewrite <- py_float_in_range_spec.
+  - (* DRangeI *) unfold py_rangei. destruct (as_integer v) as [[]|[]]; try discriminate.
+    destruct (py_int_in_range z lo hi mask) eqn:Hr; [|discriminate].
+    intros Hx; inversion Hx; subst. cbn. now rewrite <- py_int_in_range_spec.
+  - (* DEnum *) unfold py_in. destruct (existsb (py_eq v) vals) eqn:H; [|discriminate].
+    intros Hx; inversion Hx; subst. exact H.
+  - (* DMap *) destruct (hashable v) eqn:Hh; [|discriminate].
+    destruct (existsb (fun kv => py_eq v (fst kv)) m) eqn:Hg; [|discriminate].
+    intros Hx; inversion Hx; subst. cbn. now rewrite Hh, Hg.
+  - exfalso. destruct (Hleaf ds) as [H _]. now apply H.
+  - (* DInstance *) destruct v; try (destruct (isinstance E _ cls) eqn:Hi; [|discriminate];
+      intros Hx; inversion Hx; subst; exact Hi).
+    destruct allow_none; [|discriminate]. intros Hx; inversion Hx; reflexivity.
+  - (* DSelf *) destruct allow_none.
+    + destruct (isinstance E v (e_self E)) eqn:Hi; cbn.
+      * intros Hx; inversion Hx; subst. cbn. destruct w; cbn; try exact Hi. reflexivity.
+      * destruct (pv_eqb v PNone) eqn:Hv; [|discriminate]. intros Hx; inversion Hx; subst.
+        apply pv_eqb_none in Hv. now subst.
+    + destruct (isinstance E v (e_self E)) eqn:Hi; [|discriminate]. intros Hx; inversion Hx; subst.
+      cbn. destruct w; cbn; try exact Hi.
+      unfold isinstance in Hi. cbn in Hi. rewrite orb_false_r in Hi. apply negb_true_iff in Hn. fold cNONE in Hn. congruence.
+  - (* DCallable *) destruct v; cbn; try discriminate;
+      try (destruct allow_none; [|discriminate]); intros Hx; inversion Hx; subst; reflexivity.
+  - (* DType *) unfold py_type. destruct v; try discriminate.
+    + destruct allow_none; [|discriminate]. intros Hx; inversion Hx; reflexivity.
+    + destruct (issub E cls0 cls) eqn:Hi; [|discriminate]. intros Hx; inversion Hx; subst. exact Hi.
+  - (* DString *) unfold py_string. destruct (strx E v) as [s|]; [|discriminate].
+    match goal with |- context [if ?b then _ else _] => destruct b eqn:Hb end; [|discriminate].
+    intros Hx; inversion Hx; subst. exact Hb.
+  - unfold py_prefix. destruct (str_of v) as [s|] eqn:Hs; [|discriminate].
+    destruct (complete_value vals v s) eqn:Hc; [|discriminate]. intros Hx; inversion Hx; subst.
+    cbn. eapply complete_value_in; eauto.
+  - unfold py_prefix. destruct (str_of v) as [s|] eqn:Hs; [|discriminate].
+    destruct (complete_value (map fst m) v s) eqn:Hc; [|discriminate]. intros Hx; inversion Hx; subst.
+    cbn. eapply complete_value_in; eauto.
+  - exfalso. destruct (Hleaf ds) as (_ & H & _). now apply H.
+  - exfalso. destruct (Hleaf ds) as (_ & _ & H). now apply H.
+  - (* DArray: the same function on both paths *) apply (leaf_sound E (DArray dt shape casting) HB Hleaf Hnp Hwf Hn Ha v w).
+  - exfalso. now apply (proj1 (Hnp d)).
+  - exfalso. now apply (proj1 (proj2 (Hnp DAny)) ds fv).
+  - exfalso. now apply (proj2 (proj2 (Hnp d)) minlen maxlen).
+Qed.
+
+Lemma py_tuple_sound E ds : Forall (sound_at E) ds -> psound_at E (DTuple ds).
+Proof.
+  intros HF Hwf Hn Ha v w. destruct ds as [|a ds].
+  - cbn. unfold py_tuple0. destruct v; try discriminate; intros Hx; inversion Hx; reflexivity.
+  - cbn [py_validate]. rewrite dom_tuple.
+    destruct (tuple_items v) as [vs|] eqn:Hv; [|discriminate].
+    destruct (Nat.eqb (length vs) (length (a :: ds))); [|discriminate].
+    destruct (members (c_validate E) (a :: ds) vs) as [ws| |e] eqn:Hm; try discriminate.
+    intros Hx; inversion Hx; subst. cbn [tuple_items].
+    cbn [wf_desc none_sound no_adapt] in Hwf, Hn, Ha. eapply members_dom; eauto.
+Qed.
+
+Lemma py_compound_sound E ds : Forall (psound_at E) ds -> psound_at E (DCompound ds).
+Proof.
+  intros HF Hwf Hn Ha v w. cbn [py_validate]. intros Hv.
+  assert (Hex : exists a, In a ds /\ py_validate E a v = Accept w).
+  { destruct (first_sel is_fast (fun a => py_validate E a v) ds) as [x| |e] eqn:H1.
+    - inversion Hv; subst. eapply first_sel_accept_in; eauto.
+    - eapply first_sel_accept_in; eauto.
+    - discriminate. }
+  destruct Hex as (a & Hin & Hav).
+  cbn [wf_desc] in Hwf. apply andb_prop in Hwf as [Hwf _]. apply andb_prop in Hwf as [Hwf _].
+  cbn [dom]. apply existsb_exists. exists a. split; [assumption|].
+  rewrite Forall_forall in HF. apply (HF a Hin) with (v := v); eauto using forallb_in.
+Qed.
+
+Lemma dom_vtuple E ds fv ws :
+  dom E (DVTuple ds fv) (PTuple ws) = forall2b (dom E) ds ws && fv_ok E fv (PTuple ws).
+Proof.
+  change (dom E (DVTuple ds fv) (PTuple ws)) with
+    ((fix go (ds : list desc) (ws : list pv) : bool :=
+        match ds, ws with
+        | [], [] => true
+        | a :: ds', x :: ws' => dom E a x && go ds' ws'
+        | _, _ => false
+        end) ds ws && fv_ok E fv (PTuple ws)).
+  now rewrite dom_go_forall2b.
+Qed.
+
+Lemma vtuple_sound E ds fv : Forall (sound_at E) ds ->
+  wf_desc (DVTuple ds fv) = true -> none_sound E (DVTuple ds fv) = true -> no_adapt (DVTuple ds fv) = true ->
+  forall v w, vtuple_check (c_validate E) E ds fv v = Accept w -> dom E (DVTuple ds fv) w = true.
+Proof.
+  intros HF Hwf Hn Ha v w. unfold vtuple_check.
+  destruct (seq_items v) as [vs|]; [|discriminate].
+  destruct (Nat.eqb (length vs) (length ds)); [|discriminate].
+  destruct (members (c_validate E) ds vs) as [ws| |e] eqn:Hm; try discriminate.
+  destruct (fv_ok E fv (PTuple ws)) eqn:Hf; [|discriminate].
+  intros Hx; inversion Hx; subst. rewrite dom_vtuple, Hf, andb_true_r.
+  cbn [wf_desc none_sound no_adapt] in Hwf, Hn, Ha. eapply members_dom; eauto.
+Qed.
+
+Lemma all_items_dom E d : sound_at E d ->
+  wf_desc d = true -> none_sound E d = true -> no_adapt d = true ->
+  forall vs ws, all_items (c_validate E d) vs = TOk ws -> forallb (dom E d) ws = true /\ length ws = length vs.
+Proof.
+  intros Hd Hw Hn Ha. induction vs as [|v vs IH]; cbn; intros ws.
+  - intros H; inversion H; split; reflexivity.
+  - destruct (c_validate E d v) as [w| |e] eqn:Hv; try discriminate.
+    destruct (all_items (c_validate E d) vs) as [ws'| |e] eqn:Hm; try discriminate.
+    intros H; inversion H; subst. destruct (IH ws' eq_refl) as [H1 H2]. cbn.
+    rewrite (Hd Hw Hn Ha v w Hv), H1, H2. split; reflexivity.
+Qed.
+
+Lemma list_sound E d mn mx : sound_at E d ->
+  wf_desc d = true -> none_sound E d = true -> no_adapt d = true ->
+  forall v w, list_check (c_validate E d) mn mx v = Accept w -> dom E (DList d mn mx) w = true.
+Proof.
+  intros Hd Hw Hn Ha v w. unfold list_check. destruct v; try discriminate.
+  destruct ((mn <=? Z.of_nat (length l)) && (Z.of_nat (length l) <=? mx)) eqn:Hb; [|discriminate].
+  destruct (all_items (c_validate E d) l) as [ws| |e] eqn:Hm; try discriminate.
+  intros Hx; inversion Hx; subst. destruct (all_items_dom E d Hd Hw Hn Ha l ws Hm) as [H1 H2].
+  cbn [dom]. now rewrite H2, Hb, H1.
+Qed.
+
+Definition both_sound_at (E : env) (d : desc) : Prop := sound_at E d /\ psound_at E d.
+
+Lemma both_sound E d : bool_final E = true -> both_sound_at E d.
+Proof.
+  intros HB. induction d as [d H Hnp|d IHd|ds fv H|d mn mx IHd|ds H|ds H|ds H] using desc_ind'.
+  4:{ (* List(<trait>): the items go through CTrait.validate of the item trait on both paths *)
+      destruct IHd as [IHc _]. split; intros Hwf Hn Ha v w; cbn [c_validate py_validate]; now apply list_sound. }
+  - split; [now apply leaf_sound | now apply py_leaf_sound].
+  - (* Property(<trait>): validated with the trait's Python validate *)
+    destruct IHd as [_ IHp]. split; intros Hwf Hn Ha v w; cbn [c_validate py_validate dom]; apply IHp; assumption.
+  - (* ValidatedTuple: the same Python validate on both paths *)
+    assert (HF : Forall (sound_at E) ds) by (eapply Forall_impl; try exact H; now intros a [Hc _]).
+    split; intros Hwf Hn Ha v w; cbn [c_validate py_validate]; now apply vtuple_sound.
+  - split; [apply tuple_sound | apply py_tuple_sound]; eapply Forall_impl; try exact H; now intros a [Hc _].
+  - split; [apply compound_sound | apply py_compound_sound]; eapply Forall_impl; try exact H; intros a [Hc Hp]; assumption.
+  - split.
+    + apply union_sound. eapply Forall_impl; try exact H. now intros a [Hc _].
+    + (* Union.validate runs CTrait.validate of each alternative on both paths *)
+      intros Hwf Hn Ha v w. cbn [py_validate].
+      change (c_validate E (DUnion ds) v = Accept w -> dom E (DUnion ds) w = true).
+      apply union_sound; auto. eapply Forall_impl; try exact H. now intros a [Hc _].
+Qed.
+
 Lemma validate_sound_lemma E d v w :
   sound_hyp E d = true -> validate E d v = Accept w -> dom E d w = true.
 Proof.
   unfold sound_hyp, validate. intros H.
   apply andb_prop in H as [H HB]. apply andb_prop in H as [H Ha]. apply andb_prop in H as [Hwf Hn].
-  revert Hwf Hn Ha v w. change (sound_at E d).
-  induction d using desc_ind'.
-  - now apply leaf_sound.
-  - now apply tuple_sound.
-  - now apply compound_sound.
-  - now apply union_sound.
+  destruct (both_sound E d HB) as [Hc _]. now apply Hc.
+Qed.
+
+Lemma py_validate_sound_direct E d v w :
+  sound_hyp E d = true -> py_validate E d v = Accept w -> dom E d w = true.
+Proof.
+  unfold sound_hyp. intros H.
+  apply andb_prop in H as [H HB]. apply andb_prop in H as [H Ha]. apply andb_prop in H as [Hwf Hn].
+  destruct (both_sound E d HB) as [_ Hp]. now apply Hp.
+Qed.
+
+(* the state-dependent validator (name-based Range) *)
+Lemma validate_s_static E c s d v :
+  (forall lo hi m, d <> DRangeDyn lo hi m) -> validate_s E c s d v = validate E d v.
+Proof. intros H. destruct d; try reflexivity. exfalso. now apply (H lo hi mask). Qed.
+
+Lemma dyn_range_accepts low high mask v w :
+  dyn_range low high mask v = Accept w ->
+  exists l h z, low = Some (PInt l) /\ high = Some (PInt h) /\ w = PInt z /\ cast_int v = Returns (PInt z)
+                /\ int_range_spec z (Some l) (Some h) mask = true.
+Proof.
+  unfold dyn_range.
+  assert (G : match low, high with
+              | Some (PInt l), Some (PInt h) =>
+                  match cast_int v with
+                  | Returns (PInt z) => if py_int_in_range z (Some l) (Some h) mask then Accept (PInt z) else Reject
+                  | _ => Reject
+                  end
+              | _, _ => Reject
+              end = Accept w ->
+              exists l h z, low = Some (PInt l) /\ high = Some (PInt h) /\ w = PInt z /\ cast_int v = Returns (PInt z)
+                            /\ int_range_spec z (Some l) (Some h) mask = true).
+  { destruct low as [[]|]; try discriminate. destruct high as [[]|]; try discriminate.
+    destruct (cast_int v) as [[]|] eqn:Hc; try discriminate.
+    destruct (py_int_in_range z1 (Some z) (Some z0) mask) eqn:Hr; [|discriminate].
+    intros Hx; inversion Hx; subst. exists z, z0, z1. rewrite <- py_int_in_range_spec. auto. }
+  destruct v; try exact G; discriminate.
+Qed.
+
+Lemma vs_sound E c s d v w :
+  sound_hyp E d = true -> validate_s E c s d v = Accept w -> dom E d w = true.
+Proof.
+  intros Hs. destruct d; try exact (validate_sound_lemma E _ v w Hs).
+  cbn [validate_s]. intros H. destruct (dyn_range_accepts _ _ _ _ _ H) as (l & h & z & _ & _ & -> & _). reflexivity.
 Qed.
 
 (* F18 as a witness: without none_sound the statement is false *)
@@ -311,7 +532,7 @@ Lemma setattr_traiterror_no_effect E c s n v s' :
   setattr E c s n v = (s', Raise ETraitError) -> s' = s.
 Proof.
   unfold setattr. destruct (trait_of c n) as [[d dflt]|]; [|intros H; now inversion H].
-  destruct (if is_undefined v then Accept v else validate E d v) as [w| |e]; try (intros H; now inversion H).
+  destruct (if is_undefined v then (if always_validated d then validate_s E c s d v else Accept v) else validate_s E c s d v) as [w| |e]; try (intros H; now inversion H).
   pose proof (post_raise_not_traiterror d w) as Hw. pose proof (post_raise_not_traiterror d dflt) as Hd.
   destruct (post_setattr d w) as [|x|e] eqn:Hp; [intros H; inversion H|..].
   all: destruct (get s n) as [o|].
@@ -371,8 +592,8 @@ Lemma setattr_inv E c s n v :
 Proof.
   intros Hu Hc HI. unfold setattr. rewrite Hu. destruct (trait_of c n) as [[d dflt]|] eqn:Ht; [|exact HI].
   destruct (class_ok_at E c _ _ _ Hc Ht) as (Hs & Hr & Hd).
-  destruct (validate E d v) as [w| |e] eqn:Hv; try exact HI.
-  pose proof (validate_sound_lemma E d v w Hs Hv) as Hw.
+  destruct (validate_s E c s d v) as [w| |e] eqn:Hv; try exact HI.
+  pose proof (vs_sound E c s d v w Hs Hv) as Hw.
   assert (Hsetw : forall s0, Inv E c s0 -> Inv E c (set s0 n w)).
   { intros s0 H0. apply inv_set; [assumption|]. intros d' dflt' Ht'. rewrite Ht in Ht'. now inversion Ht'; subst. }
   destruct (post_setattr d w) as [|x|e] eqn:Hp; cbn.
@@ -422,11 +643,12 @@ Proof. intros n d dflt w _ H. discriminate. Qed.
 Lemma step_inv E c s o :
   kw_defined (snd o) = true -> class_ok E c = true -> Inv E c s -> Inv E c (fst (step E c s o)).
 Proof.
-  intros Hd Hc HI. destruct o as [[| |] kw]; cbn in *.
+  intros Hd Hc HI. destruct o as [[| | |] kw]; cbn in *.
   - now apply assign_all_inv.
   - now apply assign_all_inv.
   - pose proof (assign_all_inv E c kw [] Hd Hc (inv_empty E c)) as H1.
     destruct (assign_all E c [] kw) as [s1 [|e]]; cbn in *; assumption.
+  - now apply assign_all_inv.
 Qed.
 
 Lemma run_inv E c ops : forall s,
@@ -481,10 +703,10 @@ Proof.
   unfold post_safe. rewrite forallb_forall. intros Hu Hp. unfold setattr. rewrite Hu.
   destruct (trait_of c n) as [[d dflt]|] eqn:Ht; [|intros H; now inversion H].
   specialize (Hp _ (trait_of_in _ _ _ _ Ht)). cbn in Hp.
-  destruct (validate E d v) as [w| |e0] eqn:Hv; try (intros H; now inversion H).
+  destruct (validate_s E c s d v) as [w| |e0] eqn:Hv; try (intros H; now inversion H).
   destruct (has_post d) eqn:Hh.
   2:{ rewrite (post_nopost d w Hh). intros H; inversion H. }
-  destruct d; cbn in Hh; try discriminate.
+  destruct d; cbn in Hh; try discriminate; cbn [validate_s] in Hv.
   - (* DMap *) destruct (accepted_is_mapped E (DMap m) v w eq_refl Hv) as [x Hx]. rewrite Hx.
     destruct (get s n) as [o|].
     + destruct (pv_eqb o w); intros H; inversion H.
@@ -502,7 +724,7 @@ Lemma step_failure_no_effect E c s h n v s' e :
   is_undefined v = false -> post_safe c = true -> step E c s (h, [(n, v)]) = (s', Raise e) -> s' = s.
 Proof.
   intros Hu Hp. destruct h; cbn.
-  1,2: destruct (setattr E c s n v) as [s1 [|e1]] eqn:Hs; intros H; inversion H; subst;
+  1,2,4: destruct (setattr E c s n v) as [s1 [|e1]] eqn:Hs; intros H; inversion H; subst;
        eapply setattr_exception_no_effect; eauto.
   destruct (setattr E c [] n v) as [s1 [|e1]]; intros H; inversion H; reflexivity.
 Qed.
@@ -600,9 +822,9 @@ Proof.
 Qed.
 
 Lemma leaf_own E d :
-  (forall ds, d <> DTuple ds /\ d <> DCompound ds /\ d <> DUnion ds) -> own_at E d.
+  (forall ds, d <> DTuple ds /\ d <> DCompound ds /\ d <> DUnion ds) -> (forall d', d <> DProperty d' /\ (forall ds fv, d <> DVTuple ds fv) /\ forall mn mx, d <> DList d' mn mx) -> own_at E d.
 Proof.
-  intros Hleaf _ v e. destruct d; cbn [c_validate]; try discriminate.
+  intros Hleaf Hnp _ v e. destruct d; cbn [c_validate]; try discriminate.
   - (* DInt *) unfold of_conv. destruct (as_integer v) as [x|[]] eqn:H; try discriminate;
       intros Hx; inversion Hx; subst; apply as_integer_raises; auto; discriminate.
   - (* DFloat *) unfold of_conv. destruct (as_float v) as [x|[]] eqn:H; try discriminate;
@@ -640,32 +862,157 @@ Proof.
     match goal with |- match ?x with _ => _ end = _ -> _ => destruct x as [a0|] end; [|discriminate].
     match goal with |- match ?x with _ => _ end = _ -> _ => destruct x as [a1|] end; [|discriminate].
     destruct (arr_dtype_ok dt a1 && arr_shape_ok shape a1); discriminate.
+  - (* DProperty *) exfalso. now apply (proj1 (Hnp d)).
+  - (* DVTuple *) exfalso. now apply (proj1 (proj2 (Hnp DAny)) ds fv).
+  - (* DList *) exfalso. now apply (proj2 (proj2 (Hnp d)) minlen maxlen).
 Qed.
 
-Lemma own_protocol_lemma E d v e :
-  wf_desc d = true -> validate E d v = Propagate e -> raises_own v e = true.
+(* the same on the Python path (Property(<trait>) is validated there) *)
+Definition pown_at (E : env) (d : desc) : Prop :=
+  wf_desc d = true -> forall v e, py_validate E d v = Propagate e -> raises_own v e = true.
+
+Lemma cast_fn_raises_own E t v e :
+  cast_fn E t v = Raises e -> e <> ETypeError -> e <> EValueError -> e <> EOverflowError ->
+  match t with CTInt | CTFloat | CTComplex => raises_own v e = true | _ => True end.
 Proof.
-  unfold validate. intros Hwf. revert Hwf v e. change (own_at E d).
-  induction d using desc_ind'.
-  - now apply leaf_own.
-  - (* DTuple *) intros Hwf v e. destruct ds as [|a ds].
+  destruct t; try exact (fun _ _ _ _ => I); cbn [cast_fn]; intros H H1 H2 H3.
+  - (* int() *) unfold cast_int, conv_map, fl_trunc in H.
+    destruct v; try (inversion H; congruence);
+      try (destruct f; inversion H; congruence);
+      try (destruct (parse_int s); inversion H; congruence).
+    destruct c as [z|x]; inversion H; subst. apply exn_eqb_refl.
+  - (* float() *) unfold cast_float, conv_map in H.
+    destruct v; try (destruct (parse_int s) as [z|]; [destruct (int_to_fl z) eqn:Hz; inversion H; subst;
+                     apply int_to_fl_raises in Hz as [-> _]; congruence | inversion H; congruence]);
+      (destruct (float_as_double _) eqn:Hf in H; inversion H; subst; now apply float_as_double_raises).
+  - (* complex() *) unfold cast_complex, conv_map in H.
+    destruct v; try (inversion H; congruence);
+      try (destruct (parse_int s) as [z|]; [destruct (int_to_fl z) eqn:Hz; inversion H; subst;
+           apply int_to_fl_raises in Hz as [-> _]; congruence | inversion H; congruence]);
+      try (destruct c as [q|x]; inversion H; subst; apply exn_eqb_refl);
+      (destruct (float_as_double _) eqn:Hf in H; inversion H; subst; now apply float_as_double_raises).
+Qed.
+
+Lemma py_leaf_own E d :
+  (forall ds, d <> DTuple ds /\ d <> DCompound ds /\ d <> DUnion ds) -> (forall d', d <> DProperty d' /\ (forall ds fv, d <> DVTuple ds fv) /\ forall mn mx, d <> DList d' mn mx) -> pown_at E d.
+Proof.
+  intros Hleaf Hnp Hwf v e.
+  destruct d; cbn [py_validate]; try discriminate;
+    try (exact (leaf_own E _ Hleaf Hnp Hwf v e));
+    try (exfalso; first [ now apply (proj1 (Hnp d)) | now apply (proj1 (proj2 (Hnp DAny)) ds fv) | now apply (proj2 (proj2 (Hnp d)) minlen maxlen)
+                        | destruct (Hleaf ds) as (H1 & H2 & H3); first [now apply H1 | now apply H2 | now apply H3] ]);
+    (* validators that never let anything through *)
+    try (repeat (match goal with
+                 | |- context [if ?b then _ else _] => destruct b
+                 | |- context [match ?x with _ => _ end] => destruct x
+                 end; try discriminate); fail).
+  - (* DCast *) destruct (cast_fn E t v) as [x|e0] eqn:Hf; [discriminate|].
+    destruct t, e0; try discriminate; intros Hx; inversion Hx; subst;
+      exact (cast_fn_raises_own E _ v _ Hf ltac:(discriminate) ltac:(discriminate) ltac:(discriminate)).
+  - (* DRangeF *) destruct (as_float v) as [[]|[]] eqn:H; try discriminate;
+      try (destruct (py_float_in_range f lo hi mask); discriminate);
+      intros Hx; inversion Hx; subst; apply as_float_raises; auto; discriminate.
+Qed.
+
+Lemma first_sel_propagate_in sel f ds e :
+  first_sel sel f ds = Propagate e -> exists a, In a ds /\ f a = Propagate e.
+Proof.
+  induction ds as [|a ds IH]; cbn; [discriminate|]. destruct (sel a).
+  - destruct (f a) as [x| |e0] eqn:Hf.
+    + discriminate.
+    + intros H. destruct (IH H) as (b & Hb & Hfb). exists b. split; [now right | assumption].
+    + intros H; inversion H; subst. exists a. split; [now left | assumption].
+  - intros H. destruct (IH H) as (b & Hb & Hfb). exists b. split; [now right | assumption].
+Qed.
+
+Lemma all_items_exn E d : own_at E d -> wf_desc d = true ->
+  forall vs e, all_items (c_validate E d) vs = TExn e -> existsb (fun x => raises_own x e) vs = true.
+Proof.
+  intros Hd Hw. induction vs as [|v vs IH]; cbn; intros e; [discriminate|].
+  destruct (c_validate E d v) as [w| |e0] eqn:Hv; try discriminate.
+  - destruct (all_items (c_validate E d) vs) as [ws| |e1] eqn:Hm; try discriminate.
+    intros H; inversion H; subst. rewrite (IH e eq_refl). apply orb_true_r.
+  - intros H; inversion H; subst. now rewrite (Hd Hw v e Hv).
+Qed.
+
+Lemma list_own E d mn mx : own_at E d -> wf_desc d = true ->
+  forall v e, list_check (c_validate E d) mn mx v = Propagate e -> raises_own v e = true.
+Proof.
+  intros Hd Hw v e. unfold list_check. destruct v; try discriminate.
+  destruct ((mn <=? Z.of_nat (length l)) && (Z.of_nat (length l) <=? mx)); [|discriminate].
+  destruct (all_items (c_validate E d) l) as [ws| |e0] eqn:Hm; try discriminate.
+  intros Hx; inversion Hx; subst. cbn -[MAXF]. eapply all_items_exn; eauto.
+Qed.
+
+Definition both_own_at (E : env) (d : desc) : Prop := own_at E d /\ pown_at E d.
+
+Lemma both_own E d : both_own_at E d.
+Proof.
+  induction d as [d H Hnp|d IHd|ds fv H|d mn mx IHd|ds H|ds H|ds H] using desc_ind'.
+  4:{ destruct IHd as [IHc _]. split; intros Hwf v e; cbn [c_validate py_validate]; now apply list_own. }
+  - split; [now apply leaf_own | now apply py_leaf_own].
+  - destruct IHd as [_ IHp]. split; intros Hwf v e; cbn [c_validate py_validate]; apply IHp; exact Hwf.
+  - (* ValidatedTuple: the bare except swallows whatever a member lets through *)
+    split; intros Hwf v e; cbn [c_validate py_validate]; unfold vtuple_check;
+      destruct (seq_items v) as [vs|]; try discriminate;
+      destruct (Nat.eqb (length vs) (length ds)); try discriminate;
+      destruct (members (c_validate E) ds vs) as [ws| |e0]; try discriminate;
+      destruct (fv_ok E fv (PTuple ws)); discriminate.
+  - (* DTuple *)
+    assert (HF : Forall (own_at E) ds) by (eapply Forall_impl; try exact H; now intros a [Hc _]).
+    split; intros Hwf v e; destruct ds as [|a ds].
     + cbn. unfold py_tuple0. destruct v; discriminate.
     + cbn [c_validate]. unfold tuple_check. destruct (tuple_items v) as [vs|] eqn:Hv; [|discriminate].
       destruct (Nat.eqb (length (a :: ds)) (length vs)); [|discriminate].
       destruct (members (c_validate E) (a :: ds) vs) as [ws| |e0] eqn:Hm; try discriminate.
       * destruct (pvs_eqb ws vs); discriminate.
       * intros Hx; inversion Hx; subst. cbn [wf_desc] in Hwf.
-        pose proof (members_exn E (a :: ds) H Hwf vs e Hm) as Hex.
+        pose proof (members_exn E (a :: ds) HF Hwf vs e Hm) as Hex.
         destruct v; cbn in Hv; try discriminate; inversion Hv; subst; exact Hex.
-  - (* DCompound *) intros Hwf v e Hv. pose proof (wf_compound_alts ds Hwf) as Hok.
-    rewrite compound_first_accepting_lemma in Hv by exact Hok.
-    destruct (first_outcome_map_propagate _ _ _ Hv) as (a & Hin & Ha). apply in_effective_order in Hin.
-    rewrite Forall_forall in H. cbn [wf_desc] in Hwf. apply andb_prop in Hwf as [Hwf _]. apply andb_prop in Hwf as [Hwf _].
-    apply (H a Hin (forallb_in _ _ _ Hwf Hin) v e Ha).
-  - (* DUnion *) intros Hwf v e. cbn [c_validate]. rewrite first_sel_filter, filter_true. intros Hv.
-    destruct (first_outcome_map_propagate _ _ _ Hv) as (a & Hin & Ha).
-    rewrite Forall_forall in H. cbn [wf_desc] in Hwf. apply andb_prop in Hwf as [Hwf _].
-    apply (H a Hin (forallb_in _ _ _ Hwf Hin) v e Ha).
+    + cbn. unfold py_tuple0. destruct v; discriminate.
+    + cbn [py_validate]. destruct (tuple_items v) as [vs|] eqn:Hv; [|discriminate].
+      destruct (Nat.eqb (length vs) (length (a :: ds))); [|discriminate].
+      destruct (members (c_validate E) (a :: ds) vs) as [ws| |e0] eqn:Hm; try discriminate.
+      intros Hx; inversion Hx; subst. cbn [wf_desc] in Hwf.
+      pose proof (members_exn E (a :: ds) HF Hwf vs e Hm) as Hex.
+      destruct v; cbn in Hv; try discriminate; inversion Hv; subst; exact Hex.
+  - (* DCompound *) split; intros Hwf v e Hv.
+    + pose proof (wf_compound_alts ds Hwf) as Hok.
+      rewrite compound_first_accepting_lemma in Hv by exact Hok.
+      destruct (first_outcome_map_propagate _ _ _ Hv) as (a & Hin & Ha). apply in_effective_order in Hin.
+      rewrite Forall_forall in H. cbn [wf_desc] in Hwf. apply andb_prop in Hwf as [Hwf _]. apply andb_prop in Hwf as [Hwf _].
+      destruct (H a Hin) as [Hc _]. apply (Hc (forallb_in _ _ _ Hwf Hin) v e Ha).
+    + cbn [py_validate] in Hv.
+      assert (Hex : exists a, In a ds /\ py_validate E a v = Propagate e).
+      { destruct (first_sel is_fast (fun a => py_validate E a v) ds) as [x| |e0] eqn:H1.
+        - discriminate.
+        - eapply first_sel_propagate_in; eauto.
+        - inversion Hv; subst. eapply first_sel_propagate_in; eauto. }
+      destruct Hex as (a & Hin & Ha).
+      rewrite Forall_forall in H. cbn [wf_desc] in Hwf. apply andb_prop in Hwf as [Hwf _]. apply andb_prop in Hwf as [Hwf _].
+      destruct (H a Hin) as [_ Hp]. apply (Hp (forallb_in _ _ _ Hwf Hin) v e Ha).
+  - (* DUnion *)
+    assert (Hu : own_at E (DUnion ds)).
+    { intros Hwf v e. cbn [c_validate]. rewrite first_sel_filter, filter_true. intros Hv.
+      destruct (first_outcome_map_propagate _ _ _ Hv) as (a & Hin & Ha).
+      rewrite Forall_forall in H. cbn [wf_desc] in Hwf. apply andb_prop in Hwf as [Hwf _].
+      destruct (H a Hin) as [Hc _]. apply (Hc (forallb_in _ _ _ Hwf Hin) v e Ha). }
+    split; [exact Hu | exact Hu].
+Qed.
+
+Lemma own_protocol_lemma E d v e :
+  wf_desc d = true -> validate E d v = Propagate e -> raises_own v e = true.
+Proof. unfold validate. intros Hwf. destruct (both_own E d) as [Hc _]. now apply Hc. Qed.
+
+
+Lemma vs_own E c s d v e :
+  wf_desc d = true -> validate_s E c s d v = Propagate e -> raises_own v e = true.
+Proof.
+  intros Hwf. destruct d; try exact (own_protocol_lemma E _ v e Hwf).
+  cbn [validate_s]. unfold dyn_range.
+  destruct v; try discriminate;
+    repeat (match goal with |- context [match ?x with _ => _ end] => destruct x
+                          | |- context [if ?b then _ else _] => destruct b end; try discriminate).
 Qed.
 
 Lemma setattr_exception_class E c s n v s' e d dflt :
@@ -674,12 +1021,12 @@ Lemma setattr_exception_class E c s n v s' e d dflt :
 Proof.
   intros Hu Hp Ht Hwf. pose proof (setattr_exception_no_effect E c s n v s' e Hu Hp) as Hne.
   unfold setattr in *. rewrite Hu, Ht in *.
-  destruct (validate E d v) as [w| |e0] eqn:Hv.
+  destruct (validate_s E c s d v) as [w| |e0] eqn:Hv.
   - (* accepted: an exception can only come from post_setattr, excluded by post_safe *)
     unfold post_safe in Hp. rewrite forallb_forall in Hp. specialize (Hp _ (trait_of_in _ _ _ _ Ht)). cbn in Hp.
     destruct (has_post d) eqn:Hh.
     2:{ rewrite (post_nopost d w Hh). intros H; inversion H. }
-    destruct d; cbn in Hh; try discriminate.
+    destruct d; cbn in Hh; try discriminate; cbn [validate_s] in Hv.
     + destruct (accepted_is_mapped E (DMap m) v w eq_refl Hv) as [x Hx]. rewrite Hx.
       destruct (get s n) as [o|].
       * destruct (pv_eqb o w); intros H; inversion H.
@@ -692,7 +1039,7 @@ Proof.
         destruct (pv_eqb dflt w); intros H; inversion H.
     + rewrite Hh in Hp. discriminate.
   - intros H; inversion H; subst. now left.
-  - intros H; inversion H; subst. right. eapply own_protocol_lemma; eauto.
+  - intros H; inversion H; subst. right. eapply vs_own; eauto.
 Qed.
 
 (* ---------- the stored value is the documented conversion ---------- *)
@@ -830,9 +1177,9 @@ Qed.
 
 Lemma leaf_conv E d :
   bool_final E = true ->
-  (forall ds, d <> DTuple ds /\ d <> DCompound ds /\ d <> DUnion ds) -> conv_at E d.
+  (forall ds, d <> DTuple ds /\ d <> DCompound ds /\ d <> DUnion ds) -> (forall d', d <> DProperty d' /\ (forall ds fv, d <> DVTuple ds fv) /\ forall mn mx, d <> DList d' mn mx) -> conv_at E d.
 Proof.
-  intros HB Hleaf _ v w. destruct d; cbn [c_validate conv_ok].
+  intros HB Hleaf Hnp _ v w. destruct d; cbn [c_validate conv_ok].
   - (* DAny *) intros H; inversion H; apply pv_eqb_refl.
   - (* DInt *) unfold of_conv. destruct (as_integer v) as [x|[]] eqn:H; try discriminate.
     intros Hx; inversion Hx; subst. destruct (as_integer_index _ _ H) as (z & -> & ->). apply pv_eqb_refl.
@@ -894,49 +1241,206 @@ Proof.
   - exfalso. destruct (Hleaf ds) as (_ & H & _). now apply H.
   - exfalso. destruct (Hleaf ds) as (_ & _ & H). now apply H.
   - (* DArray *) apply py_array_conv.
+  - (* DProperty *) exfalso. now apply (proj1 (Hnp d)).
+  - (* DVTuple *) exfalso. now apply (proj1 (proj2 (Hnp DAny)) ds fv).
+  - (* DList *) exfalso. now apply (proj2 (proj2 (Hnp d)) minlen maxlen).
+  - (* DRangeDyn: no instance here *) discriminate.
+Qed.
+
+(* the same on the Python path *)
+Definition pconv_at (E : env) (d : desc) : Prop :=
+  wf_desc d = true -> forall v w, py_validate E d v = Accept w -> conv_ok E d v w = true.
+
+Lemma py_leaf_conv E d :
+  bool_final E = true ->
+  (forall ds, d <> DTuple ds /\ d <> DCompound ds /\ d <> DUnion ds) -> (forall d', d <> DProperty d' /\ (forall ds fv, d <> DVTuple ds fv) /\ forall mn mx, d <> DList d' mn mx) -> pconv_at E d.
+Proof.
+  intros HB Hleaf Hnp Hwf v w.
+  destruct d; cbn [py_validate conv_ok]; try discriminate;
+    try (exact (leaf_conv E _ HB Hleaf Hnp Hwf v w));
+    try (exfalso; first [ now apply (proj1 (Hnp d)) | now apply (proj1 (proj2 (Hnp DAny)) ds fv) | now apply (proj2 (proj2 (Hnp d)) minlen maxlen)
+                        | destruct (Hleaf ds) as (H1 & H2 & H3); first [now apply H1 | now apply H2 | now apply H3] ]);
+    (* validators that store the value itself, or bool(v) *)
+    try (repeat (match goal with
+                 | |- context [if ?b then _ else _] => destruct b
+                 | |- context [match ?x with _ => _ end] => destruct x
+                 end; try discriminate);
+         intros Hx; inversion Hx; subst; apply pv_eqb_refl).
+  all: try (intros _; reflexivity).       (* adapt: the adapter's result is not constrained *)
+  (* DRangeF: exact float of the value's float conversion *)
+  all: destruct (as_float v) as [x|[]] eqn:H; try discriminate;
+    destruct (as_float_double _ _ H) as (f & Hf & ->); rewrite Hf;
+    destruct (py_float_in_range f lo hi mask); [|discriminate]; intros Hx; inversion Hx; apply pv_eqb_refl.
+Qed.
+
+Lemma conv_vtuple E ds fv v ws :
+  conv_ok E (DVTuple ds fv) v (PTuple ws) =
+  match seq_items v with Some vs => forall3b (conv_ok E) ds vs ws | None => false end.
+Proof.
+  change (conv_ok E (DVTuple ds fv) v (PTuple ws)) with
+    (match seq_items v with
+     | Some vs =>
+         (fix go (ds : list desc) (vs ws : list pv) : bool :=
+            match ds, vs, ws with
+            | [], [], [] => true
+            | a :: ds', x :: vs', y :: ws' => conv_ok E a x y && go ds' vs' ws'
+            | _, _, _ => false
+            end) ds vs ws
+     | None => false
+     end).
+  destruct (seq_items v) as [vs|]; [|reflexivity]. apply conv_go_forall3b.
+Qed.
+
+Lemma vtuple_conv E ds fv : Forall (conv_at E) ds -> wf_desc (DVTuple ds fv) = true ->
+  forall v w, vtuple_check (c_validate E) E ds fv v = Accept w -> conv_ok E (DVTuple ds fv) v w = true.
+Proof.
+  intros HF Hwf v w. unfold vtuple_check.
+  destruct (seq_items v) as [vs|] eqn:Hv; [|discriminate].
+  destruct (Nat.eqb (length vs) (length ds)); [|discriminate].
+  destruct (members (c_validate E) ds vs) as [ws| |e] eqn:Hm; try discriminate.
+  destruct (fv_ok E fv (PTuple ws)); [|discriminate].
+  intros Hx; inversion Hx; subst. rewrite conv_vtuple, Hv. cbn [wf_desc] in Hwf. eapply members_conv; eauto.
+Qed.
+
+Lemma conv_list E d mn mx vs ws :
+  conv_ok E (DList d mn mx) (PList vs) (PList ws) = forall2b (conv_ok E d) vs ws.
+Proof.
+  change (conv_ok E (DList d mn mx) (PList vs) (PList ws)) with
+    ((fix go (vs ws : list pv) : bool :=
+        match vs, ws with
+        | [], [] => true
+        | x :: vs', y :: ws' => conv_ok E d x y && go vs' ws'
+        | _, _ => false
+        end) vs ws).
+  revert ws. induction vs as [|x vs IH]; intros [|y ws]; try reflexivity. cbn [forall2b]. now rewrite <- IH.
+Qed.
+
+Lemma list_conv E d mn mx : conv_at E d -> wf_desc d = true ->
+  forall v w, list_check (c_validate E d) mn mx v = Accept w -> conv_ok E (DList d mn mx) v w = true.
+Proof.
+  intros Hd Hw v w. unfold list_check. destruct v; try discriminate.
+  destruct ((mn <=? Z.of_nat (length l)) && (Z.of_nat (length l) <=? mx)); [|discriminate].
+  destruct (all_items (c_validate E d) l) as [ws| |e0] eqn:Hm; try discriminate.
+  intros Hx; inversion Hx; subst. rewrite conv_list. clear Hx.
+  revert ws Hm. induction l as [|x l IH]; cbn; intros ws.
+  - intros H; inversion H; reflexivity.
+  - destruct (c_validate E d x) as [y| |e] eqn:Hv; try discriminate.
+    destruct (all_items (c_validate E d) l) as [ws'| |e] eqn:Hm'; try discriminate.
+    intros H; inversion H; subst. cbn. rewrite (Hd Hw x y Hv). cbn. now apply IH.
+Qed.
+
+Definition both_conv_at (E : env) (d : desc) : Prop := conv_at E d /\ pconv_at E d.
+
+Lemma tuple_conv E ds : Forall (conv_at E) ds -> conv_at E (DTuple ds) /\ pconv_at E (DTuple ds).
+Proof.
+  intros H. split; intros Hwf v w; destruct ds as [|a ds].
+  - cbn. unfold py_tuple0. destruct v; try discriminate; intros Hx; inversion Hx; apply pv_eqb_refl.
+  - cbn [c_validate]. unfold tuple_check. rewrite conv_tuple.
+    destruct (tuple_items v) as [vs|] eqn:Hv; [|discriminate].
+    destruct (Nat.eqb (length (a :: ds)) (length vs)); [|discriminate].
+    destruct (members (c_validate E) (a :: ds) vs) as [ws| |e0] eqn:Hm; try discriminate.
+    cbn [wf_desc] in Hwf. pose proof (members_conv E (a :: ds) H Hwf vs ws Hm) as Hc.
+    destruct (pvs_eqb ws vs) eqn:He; intros Hx; inversion Hx; subst.
+    + apply pvs_eqb_true in He. subst. rewrite Hv, pv_eqb_refl. exact Hc.
+    + cbn [tuple_items is_exact_tuple]. rewrite orb_true_r. exact Hc.
+  - cbn. unfold py_tuple0. destruct v; try discriminate; intros Hx; inversion Hx; apply pv_eqb_refl.
+  - cbn [py_validate]. rewrite conv_tuple.
+    destruct (tuple_items v) as [vs|] eqn:Hv; [|discriminate].
+    destruct (Nat.eqb (length vs) (length (a :: ds))); [|discriminate].
+    destruct (members (c_validate E) (a :: ds) vs) as [ws| |e0] eqn:Hm; try discriminate.
+    cbn [wf_desc] in Hwf. pose proof (members_conv E (a :: ds) H Hwf vs ws Hm) as Hc.
+    intros Hx; inversion Hx; subst. cbn [tuple_items is_exact_tuple]. rewrite orb_true_r. exact Hc.
+Qed.
+
+Lemma both_conv E d : bool_final E = true -> both_conv_at E d.
+Proof.
+  intros HB. induction d as [d H Hnp|d IHd|ds fv H|d mn mx IHd|ds H|ds H|ds H] using desc_ind'.
+  4:{ destruct IHd as [IHc _]. split; intros Hwf v w; cbn [c_validate py_validate]; now apply list_conv. }
+  - split; [now apply leaf_conv | now apply py_leaf_conv].
+  - destruct IHd as [_ IHp]. split; intros Hwf v w; cbn [c_validate py_validate conv_ok]; apply IHp; exact Hwf.
+  - assert (HF : Forall (conv_at E) ds) by (eapply Forall_impl; try exact H; now intros a [Hc _]).
+    split; intros Hwf v w; cbn [c_validate py_validate]; now apply vtuple_conv.
+  - apply tuple_conv. eapply Forall_impl; try exact H. now intros a [Hc _].
+  - (* DCompound *) split; intros Hwf v w Hv.
+    + pose proof (wf_compound_alts ds Hwf) as Hok.
+      destruct (compound_eq_single_lemma E ds v w Hok Hv) as (pre & a & post & Heo & Hav & _).
+      assert (Hin : In a ds).
+      { apply in_effective_order. rewrite Heo. apply in_or_app. right. now left. }
+      cbn [wf_desc] in Hwf. apply andb_prop in Hwf as [Hwf _]. apply andb_prop in Hwf as [Hwf _].
+      cbn [conv_ok]. eapply alts_conv; eauto. eapply Forall_impl; try exact H. now intros x [Hc _].
+    + cbn [py_validate] in Hv.
+      assert (Hex : exists a, In a ds /\ py_validate E a v = Accept w).
+      { destruct (first_sel is_fast (fun a => py_validate E a v) ds) as [x| |e0] eqn:H1.
+        - inversion Hv; subst. eapply first_sel_accept_in; eauto.
+        - eapply first_sel_accept_in; eauto.
+        - discriminate. }
+      destruct Hex as (a & Hin & Hav).
+      cbn [wf_desc] in Hwf. apply andb_prop in Hwf as [Hwf _]. apply andb_prop in Hwf as [Hwf _].
+      cbn [conv_ok]. apply existsb_exists. exists a. split; [assumption|].
+      rewrite Forall_forall in H. destruct (H a Hin) as [_ Hp]. apply Hp; eauto using forallb_in.
+  - (* DUnion *)
+    assert (Hu : conv_at E (DUnion ds)).
+    { intros Hwf v w. cbn [c_validate]. rewrite first_sel_filter, filter_true. intros Hv.
+      destruct (first_outcome_map_accept _ _ _ Hv) as (pre & a & post & -> & Hav & _).
+      cbn [wf_desc] in Hwf. apply andb_prop in Hwf as [Hwf _].
+      cbn [conv_ok]. eapply alts_conv; eauto; [|apply in_or_app; right; now left].
+      eapply Forall_impl; try exact H. now intros x [Hc _]. }
+    split; [exact Hu | exact Hu].
 Qed.
 
 Lemma documented_conversion_lemma E d v w :
   wf_desc d = true -> bool_final E = true -> validate E d v = Accept w -> conv_ok E d v w = true.
+Proof. unfold validate. intros Hwf HB. destruct (both_conv E d HB) as [Hc _]. now apply Hc. Qed.
+
+Lemma py_documented_conversion_lemma E d v w :
+  wf_desc d = true -> bool_final E = true -> py_validate E d v = Accept w -> conv_ok E d v w = true.
+Proof. intros Hwf HB. destruct (both_conv E d HB) as [_ Hp]. now apply Hp. Qed.
+
+Lemma py_own_protocol_lemma E d v e :
+  wf_desc d = true -> py_validate E d v = Propagate e -> raises_own v e = true.
+Proof. intros Hwf. destruct (both_own E d) as [_ Hp]. now apply Hp. Qed.
+
+(* List(<trait>): accepted iff a list within the bounds whose items are accepted one by one by the item trait *)
+Lemma all_items_forall2 f vs ws : all_items f vs = TOk ws <-> Forall2 (fun x y => f x = Accept y) vs ws.
 Proof.
-  unfold validate. intros Hwf HB. revert Hwf v w. change (conv_at E d).
-  induction d using desc_ind'.
-  - now apply leaf_conv.
-  - (* DTuple *) intros Hwf v w. destruct ds as [|a ds].
-    + cbn. unfold py_tuple0. destruct v; try discriminate; intros Hx; inversion Hx; apply pv_eqb_refl.
-    + cbn [c_validate]. unfold tuple_check. rewrite conv_tuple.
-      destruct (tuple_items v) as [vs|] eqn:Hv; [|discriminate].
-      destruct (Nat.eqb (length (a :: ds)) (length vs)); [|discriminate].
-      destruct (members (c_validate E) (a :: ds) vs) as [ws| |e0] eqn:Hm; try discriminate.
-      cbn [wf_desc] in Hwf. pose proof (members_conv E (a :: ds) H Hwf vs ws Hm) as Hc.
-      destruct (pvs_eqb ws vs) eqn:He; intros Hx; inversion Hx; subst.
-      * apply pvs_eqb_true in He. subst. rewrite Hv, pv_eqb_refl. exact Hc.
-      * cbn [tuple_items is_exact_tuple]. rewrite orb_true_r. exact Hc.
-  - (* DCompound *) intros Hwf v w Hv. pose proof (wf_compound_alts ds Hwf) as Hok.
-    destruct (compound_eq_single_lemma E ds v w Hok Hv) as (pre & a & post & Heo & Hav & _).
-    assert (Hin : In a ds).
-    { apply in_effective_order. rewrite Heo. apply in_or_app. right. now left. }
-    cbn [wf_desc] in Hwf. apply andb_prop in Hwf as [Hwf _]. apply andb_prop in Hwf as [Hwf _].
-    cbn [conv_ok]. eapply alts_conv; eauto.
-  - (* DUnion *) intros Hwf v w. cbn [c_validate]. rewrite first_sel_filter, filter_true. intros Hv.
-    destruct (first_outcome_map_accept _ _ _ Hv) as (pre & a & post & -> & Hav & _).
-    cbn [wf_desc] in Hwf. apply andb_prop in Hwf as [Hwf _].
-    cbn [conv_ok]. eapply alts_conv; eauto. apply in_or_app. right. now left.
+  revert ws. induction vs as [|x vs IH]; cbn; intros ws.
+  - split; [intros H; inversion H; constructor | intros H; inversion H; reflexivity].
+  - split.
+    + destruct (f x) as [y| |e] eqn:Hf; try discriminate.
+      destruct (all_items f vs) as [ws'| |e] eqn:Hm; try discriminate.
+      intros H; inversion H; subst. constructor; [assumption | now apply IH].
+    + intros H; inversion H as [|? y ? ws' Hy Hr]; subst. rewrite Hy.
+      apply IH in Hr. now rewrite Hr.
 Qed.
 
-(* the Python path, too, only accepts values of the declared domain — for every trait type with a fast
-   descriptor, as a corollary of fast_eq_slow and validate_sound *)
-Lemma py_validate_sound_lemma E d v w :
-  sound_hyp E d = true -> c03_scope d = true -> benign E d v = true ->
-  py_validate E d v = Accept w -> dom E d w = true.
+Lemma list_items_lemma E d mn mx v w :
+  validate E (DList d mn mx) v = Accept w <->
+  exists vs ws, v = PList vs /\ w = PList ws /\ mn <= Z.of_nat (length vs) <= mx /\
+                Forall2 (fun x y => validate E d x = Accept y) vs ws.
 Proof.
-  intros Hs Hc Hb Hp.
-  assert (Hwf : wf_desc d = true).
-  { unfold sound_hyp in Hs. apply andb_prop in Hs as [Hs _]. apply andb_prop in Hs as [Hs _].
-    now apply andb_prop in Hs as [Hs _]. }
-  pose proof (fast_eq_slow_lemma E d v Hwf Hc Hb) as Ha. rewrite Hp in Ha.
-  unfold agrees, same_accept_set, same_value_and_type in Ha.
-  destruct (c_validate E d v) as [x| |e] eqn:Hcv; cbn in Ha; try discriminate.
-  apply andb_prop in Ha as [Ha _]. apply pv_eqb_true in Ha. subst.
-  now apply (validate_sound_lemma E d v w Hs).
+  unfold validate. cbn [c_validate]. unfold list_check. split.
+  - destruct v; try discriminate.
+    destruct ((mn <=? Z.of_nat (length l)) && (Z.of_nat (length l) <=? mx)) eqn:Hb; [|discriminate].
+    destruct (all_items (c_validate E d) l) as [ws| |e] eqn:Hm; try discriminate.
+    intros Hx; inversion Hx; subst. exists l, ws. apply andb_prop in Hb as [H1 H2].
+    apply Z.leb_le in H1, H2. repeat split; auto. now apply all_items_forall2.
+  - intros (vs & ws & -> & -> & [H1 H2] & HF).
+    apply Z.leb_le in H1, H2. rewrite H1, H2. cbn [andb].
+    apply all_items_forall2 in HF. now rewrite HF.
 Qed.
+
+Lemma vs_conv E c s d v w :
+  wf_desc d = true -> bool_final E = true -> validate_s E c s d v = Accept w -> conv_ok E d v w = true.
+Proof.
+  intros Hwf HB. destruct d; try exact (documented_conversion_lemma E _ v w Hwf HB).
+  cbn [validate_s conv_ok]. intros H. destruct (dyn_range_accepts _ _ _ _ _ H) as (l & h & z & _ & _ & -> & Hc & _).
+  rewrite Hc. apply pv_eqb_refl.
+Qed.
+
+(* the name-based Range: an accepted value is an int within the bounds the two bound attributes hold NOW, exclusivity
+   honoured at both ends; it is int(value) *)
+Lemma dyn_range_in_bounds_lemma E c s lo hi mask v w :
+  validate_s E c s (DRangeDyn lo hi mask) v = Accept w ->
+  exists l h z, read c s lo = Some (PInt l) /\ read c s hi = Some (PInt h) /\ w = PInt z
+                /\ cast_int v = Returns (PInt z) /\ int_range_spec z (Some l) (Some h) mask = true.
+Proof. cbn [validate_s]. apply dyn_range_accepts. Qed.
